@@ -67,6 +67,22 @@ pub fn c04_alphabet(n: usize, len: usize) -> Vec<Act> {
     v.push(Act::IntoIter(Script::all_front(len + 1)));
     v.push(Act::IntoIter(Script::all_back(len)));
     v.push(Act::DropBuf);
+    // partially consumed drains and owning iterators: the un-yielded part is destroyed by the crate
+    let cap = if n <= 4 { 4 } else { 2 };
+    for a in 0..=len {
+        for b in a..=len {
+            for s in Script::all_up_to((b - a).min(cap)) {
+                if s.len > 0 && s.len as usize != b - a + 1 {
+                    v.push(Act::Drain(Rs::half_open(a, b), s, Fin::Drop));
+                }
+            }
+        }
+    }
+    for s in Script::all_up_to(len.min(cap)) {
+        if s.len > 0 {
+            v.push(Act::IntoIter(s));
+        }
+    }
     v
 }
 
